@@ -111,12 +111,12 @@ pub(super) struct State {
     /// access to the cell.
     is_mutating: bool,
 
-    /// Last time the atomic was accessed. This tracks the dependent access for
-    /// the DPOR algorithm.
-    last_access: Option<Access>,
+    /// Last time each thread loaded from the atomic. This tracks the dependent
+    /// accesses for the DPOR algorithm.
+    last_load_access: [Option<Access>; MAX_THREADS],
 
-    /// Last time the atomic was accessed for a store or rmw operation.
-    last_non_load_access: Option<Access>,
+    /// Last time each thread accessed the atomic for a store or rmw operation.
+    last_non_load_access: [Option<Access>; MAX_THREADS],
 
     /// Currently tracked stored values. This is the `MAX_ATOMIC_HISTORY` most
     /// recent stores to the atomic cell in loom execution order.
@@ -417,8 +417,8 @@ impl State {
             unsync_mut_at: VersionVec::new(),
             unsync_mut_locations: LocationSet::new(),
             is_mutating: false,
-            last_access: None,
-            last_non_load_access: None,
+            last_load_access: Default::default(),
+            last_non_load_access: Default::default(),
             stores: Default::default(),
             cnt: 0,
         };
@@ -884,26 +884,35 @@ impl State {
         one.iter_mut().chain(two.iter_mut())
     }
 
-    /// Returns the last dependent access
-    pub(super) fn last_dependent_access(&self, action: Action) -> Option<&Access> {
-        match action {
-            Action::Load => self.last_non_load_access.as_ref(),
-            _ => self.last_access.as_ref(),
-        }
+    /// Returns the accesses the action depends on: loads depend on the last
+    /// store / rmw of every thread, stores and rmws on the last access of
+    /// every thread.
+    pub(super) fn dependent_accesses(&self, action: Action) -> impl Iterator<Item = &Access> {
+        let loads = match action {
+            Action::Load => &[][..],
+            _ => &self.last_load_access[..],
+        };
+
+        self.last_non_load_access
+            .iter()
+            .chain(loads.iter())
+            .filter_map(Option::as_ref)
     }
 
-    /// Sets the last dependent access
-    pub(super) fn set_last_access(&mut self, action: Action, path_id: usize, version: &VersionVec) {
-        // Always set `last_access`
-        Access::set_or_create(&mut self.last_access, path_id, version);
+    /// Sets the last access of `thread`
+    pub(super) fn set_last_access(
+        &mut self,
+        action: Action,
+        thread: thread::Id,
+        path_id: usize,
+        version: &VersionVec,
+    ) {
+        let last = match action {
+            Action::Load => &mut self.last_load_access,
+            _ => &mut self.last_non_load_access,
+        };
 
-        match action {
-            Action::Load => {}
-            _ => {
-                // Stores / RMWs
-                Access::set_or_create(&mut self.last_non_load_access, path_id, version);
-            }
-        }
+        Access::set_or_create(&mut last[thread.as_usize()], path_id, version);
     }
 }
 
